@@ -87,3 +87,10 @@ Example C09_hypotheses_satisfiable :
   fk_events ex_cfg (ce_kind ex_parent_removed) = true /\
   convert ex_cfg true ex_parent_removed <> None.
 Proof. vm_compute. repeat split; congruence. Qed.
+
+(** ** tie to the source text (Generated/Facts.v): the event types each policy defers are those of
+    [GenericClient.__FOREIGNKEYS_POLICIES] now *)
+From Hermes Require Import Proofs.FactsTieClient.
+Theorem C09_policy_table_is_the_source_s : forall c k, fk_events c k = facts_fk_events (cc_fkpolicy c) k.
+Proof. exact fk_policy_tie. Qed.
+Print Assumptions C09_policy_table_is_the_source_s.
